@@ -137,8 +137,48 @@ def suite_legacy(seed, tier):
                               "legacy_rows": wide,
                               "what": f"legacy implementation disagrees with the current one on a sparse input "
                                       f"({len(leg)} vs {len(cur)} clusters)"})
+    # exact ties at the threshold: two fingerprints whose Tanimoto (= the iSIM of the pair) is EXACTLY the
+    # decimal threshold as a rational (11/20, 55/100, 99/180 for 0.55 ...), followed by an unrelated row and
+    # a duplicate of the first; `statistic >= threshold` evaluated in any other (mathematically equal) form
+    # rounds differently exactly here
+    from fractions import Fraction
+    ties = 0
+    tie_thrs = [Fraction(k, 20) for k in range(2, 19)]
+    rng.shuffle(tie_thrs)
+    for tq in tie_thrs[: (6 if tier == "quick" else 17)]:
+        for m in ([1, 5, 9] if tier == "quick" else [1, 2, 5, 9, 10, 13]):
+            inter, union = tq.numerator * m, tq.denominator * m
+            if union > 1200:
+                continue
+            cols = rng.sample(range(2048), union + 40)
+            only = union - inter
+            a_only = only // 2
+            A = set(cols[:inter]) | set(cols[inter:inter + a_only])
+            B = set(cols[:inter]) | set(cols[inter + a_only:union])
+            C = set(cols[union:union + 40])
+            rows4 = [[1 if j in S else 0 for j in range(2048)] for S in (A, B, C, A)]
+            for crit in ("diameter", "tolerance-legacy"):
+                cfg = {"crit": crit, "tol": 0.05 if crit.startswith("tol") else None, "thr": float(tq), "bf": 50}
+                bb = hist.make_bb(cfg)
+                bb.fit(np.array(rows4, dtype=np.uint8), input_is_packed=False)
+                cur = bb.get_cluster_mol_ids()
+                for variant in ("uint8", "int64"):
+                    try:
+                        leg = legacy_clusters(variant, rows4, cfg)
+                    except FloatingPointError:
+                        undefined += 1
+                        continue
+                    r.cases += 1
+                    ties += 1
+                    if leg != cur:
+                        r.bad.append({"suite": "legacy", "variant": variant, "cfg": cfg, "n_rows": 4,
+                                      "rows_on_bits": [sorted(S) for S in (A, B, C, A)], "legacy_rows": rows4,
+                                      "what": f"legacy implementation disagrees with the current one on a pair whose "
+                                              f"Tanimoto is exactly the threshold {tq} = {inter}/{union} "
+                                              f"({leg} vs {cur})"})
     r.nontrivial = r.cases
-    r.stats = {"inputs": n_inputs, "undefined_for_legacy": undefined, "criteria_separating_runs": sep}
+    r.stats = {"inputs": n_inputs, "undefined_for_legacy": undefined, "criteria_separating_runs": sep,
+               "exact_threshold_ties": ties}
     r.samples = [{"n_rows": 150 if tier == "quick" else 800, "bits": 2048}]
     return r
 
